@@ -76,6 +76,11 @@ CHECKS['C13'] = dict(
    text='Generated-input search with specification predicates. Locks: single-sig (both layouts), m-of-n multisig, script-hash (hash sizes 1..64), graftroot, graftap; witnesses: every sibling witness builder. About half of the pairs match (the builder witness must unlock: stated by the property itself), the others differ in one respect (other key, covered field changed, excluded field changed, non-permitted flag, other committed / surrogate script, surrogate signed by a foreign key - also with the rightful committed script and internal key for graftap) or pair different builders. The witness is a pure-push script, so it is reduced to the stack it leaves and a reference predicate per lock kind decides the expected verdict (cross pairings are evaluated, never assumed); a recording contract shows that a rejected witness ran no committed or surrogate script. Changes to excluded fields must not change the verdict.',
    note='Own verdicts of committed / surrogate scripts reuse the implementation of single-script execution. Truncated script hashes are evaluated by the predicate itself (collisions at 1 byte are legitimate matches).',
    design='3/C13')
+CHECKS['C14'] = dict(
+   technique='Hypothesis certificate chains (valid chain + at most one defect) with pinned clock; reference acceptance condition over the certificate data using the RFC 8032 reference; boundary enumeration for Certificate pack/unpack',
+   text='Generated-input search with a specification predicate. Chains of 1-6 certificates with windows placed at t = begin, begin-1, end-1, end, end+1, slack at threshold-1 / threshold / threshold+1 for thresholds 0, 1, 60, 120, may-delegate patterns, and one of ten corruption kinds (bit flip anywhere in the 105 certificate bytes, wrong signer, swap, drop, cross-chain splice, final signature by a non-final delegate / the root / over other sigfields / with a non-permitted flag). The expected verdict is computed by a reference that walks the resulting certificate DATA: every link verified with the pure-Python Ed25519, every window and the slack evaluated, delegability of inner certificates, final signature. Both the single-certificate lock and the chain lock. Certificate.pack / unpack round trips are enumerated over 13 x 13 boundary timestamps x both booleans.',
+   note='Clock pinned via functions.time; threshold via functions.flags (restored). At least 30 % of the cases authorise (vacuity guard).',
+   design='3/C14')
 NOT_YET = {}
 for i in range(1, 21):
     pid = 'C%02d' % i
